@@ -32,6 +32,17 @@ from hl7apy import load_library, get_default_validation_level, get_default_versi
 from hl7apy.exceptions import InvalidDataType
 from hl7apy.utils import get_date_info, get_datetime_info, get_timestamp_info
 
+# verification hook (off unless HL7APY_VERIF=1 and a scheduler is installed): named yield points at the places
+# where datatype_factory touches state shared between threads
+import os as _os
+_VERIF = _os.environ.get('HL7APY_VERIF') == '1'
+_verif_point = None
+
+
+def _verif(name):
+    if _verif_point is not None:
+        _verif_point(name)
+
 
 def datatype_factory(datatype, value, version=None, validation_level=None):
     """
@@ -75,10 +86,14 @@ def datatype_factory(datatype, value, version=None, validation_level=None):
         version = get_default_version()
 
     lib = load_library(version)
+    if _VERIF:
+        _verif('df.loaded')
 
     base_datatypes = lib.get_base_datatypes()
 
     factories = base_datatypes.copy()
+    if _VERIF:
+        _verif('df.copied')
 
     if 'DT' in factories:
         factories['DT'] = date_factory
@@ -91,8 +106,12 @@ def datatype_factory(datatype, value, version=None, validation_level=None):
     if 'SI' in factories:
         factories['SI'] = sequence_id_factory
 
+    if _VERIF:
+        _verif('df.overridden')
     try:
         factory = factories[datatype]
+        if _VERIF:
+            _verif('df.dispatch')
         if isinstance(factory, FunctionType):
             return factory(value, base_datatypes[datatype], validation_level=validation_level)
         return factory(value, validation_level=validation_level)
